@@ -72,7 +72,7 @@ func (p c12Prog) logOpts(io iface.IO, isDefault bool) *ipfslog.LogOptions {
 
 var innerPaths = []string{"next", "refs", "next[0]", "refs[0]", "next[1]", "next[2]", "+extra"}
 
-var entryPaths = []string{"v", "id", "key", "sig", "hash", "next", "refs", "clock", "clock.id", "clock.time", "payload", "identity", "identity.id", "identity.type", "identity.publicKey", "identity.signatures", "identity.signatures.id", "identity.signatures.publicKey", "next[0]", "refs[0]", "enc_links", "enc_links_nonce", "+extra"}
+var entryPaths = []string{"v", "id", "key", "sig", "key", "sig", "hash", "next", "refs", "clock", "clock.id", "clock.time", "payload", "identity", "identity.id", "identity.type", "identity.publicKey", "identity.signatures", "identity.signatures.id", "identity.signatures.publicKey", "next[0]", "refs[0]", "enc_links", "enc_links_nonce", "+extra"}
 var manifestPaths = []string{"id", "heads", "heads[0]", "+extra"}
 var pbPaths = []string{"hash", "id", "payload", "next", "next[0]", "v", "clock", "clock.id", "clock.time", "key", "sig", "+extra"}
 
@@ -190,7 +190,58 @@ func sameKind(path string) *rapid.Generator[Val] {
 			}
 			return Str(enc)
 		})
+	case "key", "sig", "clock.id", "identity.publicKey", "identity.signatures.id", "identity.signatures.publicKey":
+		// hex-carrying fields: besides the fixed pool, hex of short byte strings over the bytes that start keys and DER
+		// signatures, every truncation of a real key / signature, and a real one with a byte replaced or appended
+		return rapid.OneOf(stringPool(), hexField(), hexField(), hexField(), hexField())
 	default: // string fields
+		return stringPool()
+	}
+}
+
+func hexField() *rapid.Generator[Val] {
+	{
+		return (rapid.Custom(func(t *rapid.T) Val {
+			real := [][]byte{mustHex(realKeyHex), mustHex(realSigHex)}[rapid.IntRange(0, 1).Draw(t, "which")]
+			switch rapid.IntRange(0, 3).Draw(t, "hexkind") {
+			case 0:
+				n := rapid.SampledFrom([]int{0, 1, 1, 1, 2, 2, 3, 4, 8}).Draw(t, "n")
+				b := make([]byte, n)
+				for i := range b {
+					b[i] = rapid.SampledFrom([]byte{0x30, 0x02, 0x04, 0x00, 0x01, 0x20, 0x44, 0xff}).Draw(t, "b")
+				}
+				return hx(b)
+			case 1:
+				return hx(real[:rapid.OneOf(rapid.IntRange(0, 4), rapid.IntRange(len(real)-4, len(real)), rapid.IntRange(0, len(real))).Draw(t, "cut")])
+			case 2:
+				b := append([]byte(nil), real...)
+				b[rapid.IntRange(0, len(b)-1).Draw(t, "at")] = byte(rapid.IntRange(0, 255).Draw(t, "v"))
+				return hx(b)
+			default:
+				n := rapid.IntRange(1, 3).Draw(t, "extra")
+				b := append([]byte(nil), real...)
+				for i := 0; i < n; i++ {
+					b = append(b, byte(rapid.IntRange(0, 255).Draw(t, "v")))
+				}
+				return hx(b)
+			}
+		}))
+	}
+}
+
+const realKeyHex = "04d171dd56208cc1397b1c8b2aee7b91cbdc3aa18a31cec07f9377d08b698658ee8868810747db562e590e3a74971feec0a706e0d6fed77057793c8c9f0a2847ba"
+const realSigHex = "304402203618982de57d8d7ed893c7a4124f3cdab631c67852e1ccf7fb982d44a9238a1e02200148219cf4ee971ddf2ed9c6f07c1340660a6efdf8c3ffe49c3be0f732c55ebe"
+
+func mustHex(s string) []byte {
+	b, err := hex.DecodeString(s)
+	if err != nil {
+		panic(err)
+	}
+	return b
+}
+
+func stringPool() *rapid.Generator[Val] {
+	{
 		return rapid.Map(rapid.SampledFrom([]string{"", "0", "00", "zz", "04", "3044", "ff\xff", "\xff\xfe", "verif-log", "other-log", "orbitdb", "A",
 			"04d171dd56208cc1397b1c8b2aee7b91cbdc3aa18a31cec07f9377d08b698658ee8868810747db562e590e3a74971feec0a706e0d6fed77057793c8c9f0a2847ba",
 			"304402203618982de57d8d7ed893c7a4124f3cdab631c67852e1ccf7fb982d44a9238a1e02200148219cf4ee971ddf2ed9c6f07c1340660a6efdf8c3ffe49c3be0f732c55ebe",
